@@ -59,16 +59,31 @@ GROUPS.append(Group('B1', 'ParsedAnsiControlSequenceString: unformatted_str and 
 CL_B2 = [Clause('re-insertion-reproduces-the-input', 'post_formatted_is_input')]
 
 
+B2_TEMPLATES = ('TSST', 'TSTST', 'SS', 'TSSST', 'STTSS', 'TTSS')   # T = one symbolic character, S = ESC [ <symbolic> m
+
+
 def b2_items(tier):
     L = 5 if tier == 'quick' else 7
-    return [[n, fn] for n in range(0, L + 1) for fn in ('formatted_str', '__str__', '__repr__')]
+    out = [[n, fn] for n in range(0, L + 1) for fn in ('formatted_str', '__str__', '__repr__')]
+    # longer inputs of a fixed shape: several sequences at one removal point, text before / between / after
+    out += [[t, 'formatted_str'] for t in B2_TEMPLATES]
+    return out
 
 
 def b2_task(envr, item):
     n, fn = item
 
     def body(c):
-        s = sym_text(c, n, TOK_ALPHABET)
+        if isinstance(n, str):
+            cps = []
+            for j, ch in enumerate(n):
+                if ch == 'T':
+                    cps.extend(sym.s_chars(sym_text(c, 1, TOK_ALPHABET, 't%d_' % j)))
+                else:
+                    cps.extend([27, 91] + sym.s_chars(sym_text(c, 1, (49, 59, 63), 'p%d_' % j)) + [109])
+            s = sym.s_from_chars(cps)
+        else:
+            s = sym_text(c, n, TOK_ALPHABET)
         allow = c.named_bool('allow')
         accept = [None, 'm'][c.choice(2)]
         obj = envr.interp.instantiate('ParsedAnsiControlSequenceString', [s, allow, accept], {})
@@ -77,7 +92,7 @@ def b2_task(envr, item):
     return ContractRun(body, CL_B2, frame=('self',))
 
 
-GROUPS.append(Group('B2', 'formatted_str / str() / repr() of a parsed string reproduce the original string', ['C19'], 'B',
+GROUPS.append(Group('B2', 'formatted_str / str() / repr() of a parsed string reproduce the original string (all short strings, plus longer templates with several sequences at one removal point)', ['C19'], 'B',
                     ['ParsedAnsiControlSequenceString.formatted_str', 'ParsedAnsiControlSequenceString.__str__',
                      'ParsedAnsiControlSequenceString.__repr__'], b2_items, b2_task,
                     bounds='strings of length <=5/7 over ESC [ digit ; m A x; both constructor flags'))
